@@ -723,6 +723,25 @@ FLEET['G27'] = dict(
     values=['node', 'mnode'],
 )
 
+# an explicit rule precedence on a rule with a CONTEXT functor (rule[prec] >>= f), where the precedence decides a
+# shift/reduce conflict that changes the LANGUAGE: amount -> '5' [2] beats shifting 'k' (level 1), so "5kg" is the only
+# sentence; with the precedence lost, "5kg" is rejected and "5kkg" accepted (S107)
+FLEET['G28'] = dict(
+    terms=[
+        ('five', T('char', '5', typed=True)),
+        ('k', T('char', 'k', prec=1)),
+        ('g', T('char', 'g')),
+    ],
+    nterms=['weight', 'amount'],
+    root='weight',
+    rules=[
+        ('amount', ['five'], 'ctx', 2),
+        ('weight', ['amount', 'k', 'g'], 'plain'),
+        ('amount', ['five', 'k'], 'plain'),
+    ],
+    values=['node'],
+)
+
 # standalone regex matchers (regex::expr<P>)
 REGEXES = {
     'R1': 'ab*c',
